@@ -143,6 +143,10 @@ M = {
    [("msgwriter.go", "nor would a failing write be noticed\n\t\tencodedWriter = quotedprintable.NewWriter(&writeBuffer)", "nor would a failing write be noticed\n\t\tencodedWriter = quotedprintable.NewWriter(writer)")]),
  "C11-pgp-boundary-not-kept": ("C11", ["C11"], "the generated boundary of a PGP/MIME multipart is not remembered (the fix removed)",
    [("msgwriter.go", "\t\t\tpgpBoundary = msg.multiPartBoundary[mimePGP]\n", "\t\t\tpgpBoundary = \"\"\n")]),
+ "C12-startmp-wipes-earlier-error": ("C12", ["C12"], "startMP overwrites a recorded error with the result of SetBoundary again (the fix removed)",
+   [("msgwriter.go", "\t\tif err := multiPartWriter.SetBoundary(boundary); err != nil && mw.err == nil {\n\t\t\tmw.err = err\n\t\t}", "\t\tmw.err = multiPartWriter.SetBoundary(boundary)")]),
+ "C12-writestring-short-write-accepted": ("C12", ["C12"], "writeString accepts a write cut short without an error again (the fix removed)",
+   [("msgwriter.go", "\tif mw.err == nil && n < len(s) {", "\tif mw.err == nil && n < len(s) && false {")]),
  "C17-deadline-times-thousand": ("C17", ["C17"], "deadline armed with timeout*1000",
    [("smtp/smtp.go", "c.conn.SetDeadline(time.Now().Add(timeout))", "c.conn.SetDeadline(time.Now().Add(timeout * 1000))")]),
  "C17-dial-deadline-cleared-after-greeting": ("C17", ["C17"], "the dial-phase deadline is cleared once the greeting was read",
